@@ -64,9 +64,10 @@ class _NonBlocking:
 
 
 class Decision:
-    __slots__ = ('n', 'chosen', 'kind', 'running_enabled', 'label', 'step')
+    __slots__ = ('n', 'chosen', 'kind', 'running_enabled', 'label', 'step', 'inj')
 
-    def __init__(self, n, chosen, kind, running_enabled, label, step):
+    def __init__(self, n, chosen, kind, running_enabled, label, step, inj=()):
+        self.inj = inj              # indices of options that start an injection
         self.n = n
         self.chosen = chosen
         self.kind = kind            # 'sched' | 'env'
@@ -75,7 +76,7 @@ class Decision:
         self.step = step
 
     def as_tuple(self):
-        return (self.n, self.chosen, self.kind, self.running_enabled, self.label)
+        return (self.n, self.chosen, self.kind, self.running_enabled, self.label, self.inj)
 
 
 class CThread:
@@ -162,7 +163,7 @@ class Sched:
         self.log.append((self.step, cur.id if cur is not None else -1, kind, payload))
 
     # ------------------------------------------------------------- decisions
-    def _decide(self, n, kind, running_enabled, label):
+    def _decide(self, n, kind, running_enabled, label, inj=()):
         if n <= 1:
             return 0
         if self.pos < len(self.prefix):
@@ -174,7 +175,7 @@ class Sched:
         else:
             c = 0
         self.pos += 1
-        self.decisions.append(Decision(n, c, kind, running_enabled, label, self.step))
+        self.decisions.append(Decision(n, c, kind, running_enabled, label, self.step, inj))
         return c
 
     def choose(self, n, label=''):
@@ -376,8 +377,12 @@ class Sched:
             order = en
             running_enabled = False
         if len(order) > 1:
+            inj = ()
+            if self._has_prio:
+                inj = tuple(i for i, t in enumerate(order)
+                            if t.prio and (t.op_kind == 'start' or t.op_kind.startswith('inject.')))
             idx = self._decide(len(order), 'sched', running_enabled,
-                               me.op_kind if me is not None else 'exit')
+                               me.op_kind if me is not None else 'exit', inj)
         else:
             idx = 0
         nxt = order[idx]
